@@ -227,6 +227,7 @@ def plan(tier):
         jobs.append({"part": "gen", "examples": per})
     jobs.append({"part": "ident", "examples": 1500 if tier == "quick" else 40000})
     jobs.append({"part": "strlen"})
+    jobs.append({"part": "arrlen"})
     return jobs
 
 
@@ -259,6 +260,13 @@ def run_job(ctx, job):
             ctx.case(("strlen", t["k"], t.get("cs"), len(v)), True, ["string", "string-length-boundary"])
             for d in discs:
                 ctx.violation(d, "pair", {"t": t, "v": v})
+    elif job["part"] == "arrlen":
+        for t, v in C.boundary_array_cases():
+            discs = check_pair(t, v)
+            ctx.case(("arrlen", str(t["len"]), t["el"]["k"], len(v)), True, ["array", "array-length-boundary"])
+            for d in discs:
+                ctx.violation(Disc(d.bucket, d.detail[:300] + f" ... [{len(v)} elements]"), "pair", {"t": t, "v": v})
+        ctx.exhaustive_parts.append("array length-prefix boundaries")
     elif job["part"] == "gen":
         @st.composite
         def cases(draw):
